@@ -43,3 +43,89 @@ package data
 //@ iface Maximum(x) returns (r)
 //@   ensures forall(k, 0, x.len, r >= x.at(k))
 //@   assigns nothing
+
+// =====================================================================
+// L0: integer index helpers against their arithmetic definitions (C02)
+// =====================================================================
+
+//@ spec iprod(a []int, n int) int = ite(n <= 0, 1, iprod(a, n-1) * a[n-1])
+//@ spec idot(a []int, b []int, n int) int = ite(n <= 0, 0, idot(a, b, n-1) + a[n-1]*b[n-1])
+//@ spec carryPos(v []int, w []int, k int) int = ite(k < 0, -1, ite(v[k] + 1 < w[k], k, carryPos(v, w, k-1)))
+
+//@ func Product(ix) returns (r)
+//@   safety C02
+//@   assigns nothing
+//@   ensures [C02.product] r == iprod(ix, len(ix))
+//@   loop 0 invariant -1 <= rangeindex && rangeindex < len(ix) && result == iprod(ix, rangeindex + 1)
+
+//@ func dotProduct(lhs, rhs) returns (r)
+//@   safety C02
+//@   requires len(rhs) >= len(lhs)
+//@   assigns nothing
+//@   ensures [C02.dot-product] r == idot(lhs, rhs, len(lhs))
+//@   loop 0 invariant 0 <= i && i <= len(lhs) && result == idot(lhs, rhs, i)
+
+//@ func Multiply(lhs, rhs) returns (r)
+//@   safety C02
+//@   requires len(rhs) >= len(lhs)
+//@   fresh r
+//@   assigns nothing
+//@   ensures [C02.multiply] len(r) == len(lhs) && forall(k, 0, len(lhs), r[k] == lhs[k]*rhs[k])
+//@   loop 0 invariant 0 <= i && i <= len(lhs) && len(result) == len(lhs) && forall(k, 0, i, result[k] == lhs[k]*rhs[k])
+
+//@ func decrement(vector) returns (r)
+//@   safety C02
+//@   fresh r
+//@   assigns nothing
+//@   ensures [C02.decrement] len(r) == len(vector) && forall(k, 0, len(vector), r[k] == vector[k] - 1)
+//@   loop 0 invariant 0 <= i && i <= len(vector) && len(result) == len(vector) && forall(k, 0, i, result[k] == vector[k] - 1)
+
+//@ func Increment(vector, wrt)
+//@   noalias
+//@   safety C02
+//@   requires len(vector) >= len(wrt)
+//@   assigns vector[*]
+//@   ensures [C02.increment-zeroed] forall(k, carryPos(old(seq(vector)), seq(wrt), len(wrt)-1) + 1, len(wrt), vector[k] == 0)
+//@   ensures [C02.increment-carry] implies(carryPos(old(seq(vector)), seq(wrt), len(wrt)-1) >= 0, vector[carryPos(old(seq(vector)), seq(wrt), len(wrt)-1)] == old(vector[carryPos(old(seq(vector)), seq(wrt), len(wrt)-1)]) + 1)
+//@   ensures [C02.increment-prefix] forall(k, 0, carryPos(old(seq(vector)), seq(wrt), len(wrt)-1), vector[k] == old(vector[k]))
+//@   ensures [C02.increment-rest] forall(k, len(wrt), len(vector), vector[k] == old(vector[k]))
+//@   loop 0 invariant -1 <= i && i < dims && dims == len(wrt)
+//@   loop 0 invariant forall(k, i+1, dims, old(vector[k]) + 1 >= wrt[k] && vector[k] == 0)
+//@   loop 0 invariant forall(k, 0, i+1, vector[k] == old(vector[k])) && forall(k, dims, len(vector), vector[k] == old(vector[k]))
+//@   loop 0 invariant carryPos(old(seq(vector)), seq(wrt), dims-1) == carryPos(old(seq(vector)), seq(wrt), i)
+
+//@ func Argmax(vector) returns (r)
+//@   safety C02
+//@   requires len(vector) >= 1
+//@   assigns nothing
+//@   ensures [C02.argmax] 0 <= r && r < len(vector) && forall(k, 0, len(vector), vector[k] <= vector[r]) && forall(k, 0, r, vector[k] < vector[r])
+//@   loop 0 invariant -1 <= rangeindex && rangeindex < len(vector) - 1
+//@   loop 0 invariant 0 <= res && res <= rangeindex + 1 && maxFound == vector[res]
+//@   loop 0 invariant forall(k, 0, rangeindex + 2, vector[k] <= maxFound) && forall(k, 0, res, vector[k] < maxFound)
+
+//@ func Maximum(vector) returns (r)
+//@   safety C02
+//@   requires len(vector) >= 1
+//@   assigns nothing
+//@   ensures [C02.maximum] forall(k, 0, len(vector), vector[k] <= r) && exists(k, 0, len(vector), vector[k] == r)
+//@   loop 0 invariant -1 <= rangeindex && rangeindex < len(vector) - 1
+//@   loop 0 invariant forall(k, 0, rangeindex + 2, vector[k] <= res) && exists(k, 0, rangeindex + 2, vector[k] == res)
+
+//@ func Offsets(dims) returns (r)
+//@   safety C02
+//@   requires len(dims) >= 1
+//@   fresh r
+//@   assigns nothing
+//@   ensures [C02.offsets] len(r) == len(dims) && r[len(dims)-1] == 1 && forall(k, 0, len(dims)-1, r[k] == r[k+1]*dims[k+1])
+//@   loop 0 invariant -1 <= i && i <= len(dims) - 2 && len(res) == len(dims) && res[len(dims)-1] == 1
+//@   loop 0 invariant forall(k, i+1, len(dims)-1, res[k] == res[k+1]*dims[k+1])
+
+//@ func IDivMod(numerator, denominators, modulator) returns (r)
+//@   safety C02
+//@   requires len(modulator) >= len(denominators)
+//@   requires forall(k, 0, len(denominators), denominators[k] != 0 && modulator[k] != 0)
+//@   fresh r
+//@   assigns nothing
+//@   ensures [C02.idivmod] len(r) == len(denominators) && forall(k, 0, len(denominators), r[k] == tmod(tdiv(numerator, denominators[k]), modulator[k]))
+//@   loop 0 invariant -1 <= rangeindex && rangeindex < len(denominators) && len(res) == len(denominators)
+//@   loop 0 invariant forall(k, 0, rangeindex + 1, res[k] == tmod(tdiv(numerator, denominators[k]), modulator[k]))
